@@ -308,3 +308,11 @@ Proof.
   destruct (marshal_len_any bbs h _ raw Hm) as (p' & Hp' & Hl). rewrite Hp in Hp'. inversion Hp'; subst p'.
   exists p. auto.
 Qed.
+
+(* two padding extensions anywhere in the spec: refused *)
+Lemma two_paddings_error bbs padto h a l1 w1 p1 b l2 w2 p2 c :
+  marshal_hello bbs padto h (a ++ EPadding l1 w1 p1 :: b ++ EPadding l2 w2 p2 :: c) = Err E_MULTI_PADDING.
+Proof.
+  unfold marshal_hello, marshal_prepare. rewrite map_app. cbn [map]. rewrite map_app. cbn [map to_aext].
+  rewrite find_padding_two. reflexivity.
+Qed.
